@@ -51,8 +51,8 @@ static int g_trace;                  // replay mode: print every step
 static unsigned g_max_steps = 4000;
 static unsigned g_max_points = 3000;
 static uint64_t g_tick_ns = 0;       // virtual time added per clock read
-static int g_starve = 40; // consecutive steps after which a thread is switched out for free when others are enabled
-static int g_spin = 12;   // consecutive steps alone (everyone else asleep) after which time passes to the next wake-up
+static int g_starve = 96; // consecutive steps after which a thread is switched out for free when others are enabled
+static int g_spin = 64;   // consecutive steps alone (everyone else asleep) after which time passes to the next wake-up
 static int g_skip_advances = 0;
 static int g_timeskip = 1;           // allow choosing an unexpired sleeper (costs one deviation)
 static uint8_t* g_cov; static size_t g_cov_n; // edge bitmap shared by all executions
@@ -64,6 +64,7 @@ enum { BLK_NONE = 0, BLK_MUTEX, BLK_COND, BLK_JOIN, BLK_SLEEP };
 struct vt
 {
     int used, finished, joined, blk, jt, consec;
+    unsigned nsleeps;
     void *o1, *o2;
     uint64_t wake;
     int go;
@@ -429,6 +430,7 @@ static void vsleep_ns(uint64_t d)
 {
     if (!controlled()) return; // setup phase: sleeping is pointless
     T[my_tid].wake = NOW + d;
+    T[my_tid].nsleeps++;
     point(BLK_SLEEP, 0, 0, "sleep");
 }
 int nanosleep(const struct timespec* req, struct timespec* rem)
@@ -559,6 +561,8 @@ void vs_join(int tid)
 void vs_sleep_ms(double ms) { vsleep_ns((uint64_t)(ms * 1e6)); }
 uint64_t vs_now_ns(void) { return NOW; }
 int vs_self(void) { return my_tid; }
+int vs_thread_count(void) { return NT; }
+unsigned vs_sleeps_of(int tid) { return (tid >= 0 && tid < NT) ? T[tid].nsleeps : 0; }
 int vs_active(void) { return ACTIVE; }
 unsigned vs_steps(void) { return STEPS; }
 void vs_note(const char* fmt, ...)
